@@ -497,6 +497,9 @@ package utreexo
 //@   acquires R
 //@ func (m *MapPollard) Write(w io.Writer) (n int, err error)
 //@   acquires R
+//@   ensures n == ioBytes
+//@   foreach 1: invariant totalBytes == ioBytes
+//@   foreach 2: invariant totalBytes == ioBytes
 //@ func (m *MapPollard) remove(proof Proof, delHashes []Hash) (err error)
 //@   lock: W
 //@ func (m *MapPollard) add(adds []Leaf) (err error)
@@ -752,3 +755,5 @@ package utreexo
 //@ func insertSortNodeAndPos(nodes []nodeAndPos, el nodeAndPos) []nodeAndPos
 
 //@ func GetMissingPositions(numLeaves uint64, proofTargets, desiredTargets []uint64) []uint64
+
+//@ func moveDownPosition(totalRows uint8, position uint64, delPos uint64, pos uint64) (res uint64)
